@@ -16,6 +16,21 @@ from .use import Use
 from .variable import Variable
 
 
+def contains_scope(obj, target) -> bool:
+    """Is ``target`` the object ``obj`` itself or nested somewhere inside it"""
+    seen = set()
+    stack = [obj]
+    while stack:
+        cur = stack.pop()
+        if cur is target:
+            return True
+        if id(cur) in seen:
+            continue
+        seen.add(id(cur))
+        stack.extend(getattr(cur, "children", None) or [])
+    return False
+
+
 class FortranAST:
     def __init__(self, file_obj=None):
         self.file = file_obj
@@ -282,6 +297,13 @@ class FortranAST:
                         parent_scope.children.remove(obj)
                     added_entities = []
                     for child in list(include_ast.inc_scope.children):
+                        # A file included from within one of its own scopes,
+                        # directly or through other files: a scope cannot be
+                        # put inside itself
+                        if parent_scope is not None and contains_scope(
+                            child, parent_scope
+                        ):
+                            continue
                         added_entities.append(child)
                         if parent_scope is not None:
                             parent_scope.add_child(child)
